@@ -1,6 +1,8 @@
 """What MANIFEST.json claims, per property (bin/mkmanifest renders it)."""
 FIX_COMMITS = []
 NOT_YET = {}
+# checks that exist but are withdrawn for the moment (reason shown in MANIFEST.not_applicable)
+PENDING = {}
 TB = ("Trusted: Lean kernel + axioms propext/Classical.choice/Quot.sound (audited per theorem, no native_decide); the "
       "statements in lean/RModel/Props; the hand-written model is tied to /repo by the differential correspondence "
       "(generator quality bounds what it sees) and the translators; ")
@@ -207,3 +209,47 @@ CHECKS["C10"] = {
           "instance used by the driver); plan-id hash modelled as injective on (concatenated terms, second); path renames, --commit, "
           "unparsable history.json (C11) and the lock (C12) not modelled; workspaces git-ignore .renamify (C09's finding kept out).",
 }
+CHECKS["C04"] = {
+  "text": "Operation-level Lean model of rename/apply/redo/replace/undo (RModel/Model/Exec.lean): every mutating libc call goes through "
+          "doOp, which counts, logs and consults the injection spec; the code idioms that decide failure behaviour (in-place vs temp+rename "
+          "History::save, empty-lock handling, temp-file cleanup, undo via temp) are read from the source on every run by "
+          "translate/execflags.py and select the model variant. Theorems for all plans/trees and EVERY fault index k and errno (the state "
+          "incl. injection spec is universally quantified; proofs are structural inductions over the programs): fault-free content and "
+          "rename phases compute exactly Apply.applyPlan's phases (success_complete, guard G04), the history bytes parse back to the earlier "
+          "entries plus one, an error injected at any call of the two tree phases is never swallowed (failure_reports_failure_partial), a stale "
+          "first file / occupied destination changes nothing. C04_full is false: kernel-evaluated witnesses for the 8 listed findings plus the "
+          "stale-plan panic. Tie: the real binary runs under shim/fsshim.c; its abstracted syscall trace must equal the model's op list, then "
+          "EVERY mutating call of the real trace fails once (EIO; thorough +ENOSPC, EACCES: ~4000 runs) and exit class, user tree, history, "
+          "lock, stored plan and the whole error-path trace are compared with the model's prediction for the same k; six stale-plan "
+          "perturbations likewise. Oracle independent of the model: exit!=0 => tree and history unchanged; exit 0 => reference "
+          "interpretation of the plan + exactly one new entry + stored plan; every failure must match a listed finding by shape AND window.",
+  "design_ref": "DESIGN.md section 4, C04",
+  "technique": "Lean 4 proof (program logic over a step-machine model, all k) + source-derived flags + trace correspondence + exhaustive single-fault injection via LD_PRELOAD + snapshot oracle",
+  "note": TB + "POSIX semantics of the mutating calls as written in RModel.Model.Exec.execOp; single failures only; history.json < 8 KiB "
+          "(one write(2)); case-only renames, --commit and durability not modelled; success_complete is proved for the two tree phases "
+          "under G04 (unique keys, temp names unused, destinations free along the execution) and shown for the whole command by kernel "
+          "evaluation and by the differential check; rollback_restores_paths is shown by kernel-evaluated instances (non-nested restores, "
+          "nested fails) and differentially, not as a general theorem; failure_reports_failure is proved for the content and rename phases, "
+          "the remaining call sites (directories, patches, history, stored plan) are covered by the per-k comparison with the real binary.",
+}
+CHECKS["C11"] = {
+  "text": "Same operation-level model with crashBefore/crashAfter/crashMid k. Theorems for all plans/trees and EVERY crash prefix (and every "
+          "injected error): during the content phase every file is whole and the history untouched (content_edit_atomic, "
+          "crash_prefix_partial_content), during the rename phase incl. rollback no node is altered (rename_phase_crash_ok), the in-place "
+          "History::save leaves the file in exactly four states of which only the two between open(O_TRUNC) and the end of the write do not "
+          "parse (history_window_exact), outside that window the history parses and keeps earlier entries, and the temp+rename variant has no "
+          "window at all (history_atomic_no_window). C11_full is false: witnesses history_trunc, lock_empty (undo_inplace: fixed by 851189b). "
+          "Tie: SIGKILL before and after every mutating call of the real trace of rename/apply/undo/redo/replace and in the middle of every "
+          "write (thorough: 17 scenarios, ~3800 kills); state after the kill vs model prediction for the same k. Oracle: Usable evaluated in "
+          "Python (files whole at old/new path components, none lost, history parses and retains the setup's earlier entry) plus follow-up "
+          "plan --dry-run, plan, rename -y on the leftover state.",
+  "design_ref": "DESIGN.md section 4, C11",
+  "technique": "Lean 4 proof (crash-prefix invariants by induction over the program, all k and modes) + source-derived flags + exhaustive kill injection via LD_PRELOAD + usability oracle with follow-up commands",
+  "note": TB + "a crash is a process kill (no power loss, fsync not modelled); a killed write(2) leaves a prefix; the diffy round trip is a "
+          "hypothesis of the undo program; path placement during the rename phase (old/new component mix) is checked by the oracle and by "
+          "C02ren's composition theorems, the crash theorem itself speaks about node contents and modes; lock usability is covered by "
+          "witness and differential check, not by a general theorem.",
+}
+
+_W = "check built and passing before the latest repo fix commits; temporarily withdrawn while its Lean model is updated to the repaired code"
+PENDING.update({"C01": _W, "C07": _W, "C08": _W, "C12": _W})
